@@ -101,16 +101,16 @@ def skipObjects (c : Cfg) (tid : Nat) (count : Int) (packed : Bool) : P Unit := 
     -- repair F20: a negative distance is refused (the stream must never move backwards)
     if packed then do
       let skip ← readInt32 c
-      if skip < 0 then P.fail .invalidSize else seek skip
+      if skip < 0 then P.fail .invalidSize else skipBytes c skip
     else
-      skipMany count.toNat (do let skip ← readInt32 c; if skip < 0 then P.fail .invalidSize else seek skip)
+      skipMany count.toNat (do let skip ← readInt32 c; if skip < 0 then P.fail .invalidSize else skipBytes c skip)
   else
     match fixedSize tid with
     | .error e => P.fail e
     | .ok sz => do
       if count > INT_MAX / sz then P.fail .invalidSize else
       guardUB (decide (sz * count ≤ INT_MAX)) "c*sz overflows int in sbdf_skip_objects"
-      seek (count * sz)
+      skipBytes c (count * sz)
 
 def skipObjArr (c : Cfg) (tid : Nat) : P Unit := do
   let count ← readInt32 c
